@@ -74,11 +74,11 @@ impl Node {
 //@fn vls-core/src/node.rs :: impl Wallet for Node :: can_spend props=C08,C07,C09
     ensures
         r.is_ok() ==> r->Ok_0 == wallet_spendable(*self, *child_path, *script_pubkey),               //[C08.wallet.can-spend-only-own-addresses]
-//@sub /(?s)let native_addr = Address::p2wpkh\(&pubkey, self\.network\(\)\);\s*let wrapped_addr = Address::p2shwpkh\(&pubkey, self\.network\(\)\);\s*let untweaked_pubkey = UntweakedPublicKey::from\(pubkey\.0\);/ => let native_addr = vx_p2wpkh(&pubkey, self.network()); let wrapped_addr = vx_p2shwpkh(&pubkey, self.network());
-//@sub /let taproot_addr = Address::p2tr\(&self\.secp_ctx, untweaked_pubkey, None, self\.network\(\)\);/ => let taproot_addr = vx_p2tr(&pubkey, self.network());
-//@sub /native_addr\.script_pubkey\(\)/ => native_addr
-//@sub /wrapped_addr\.script_pubkey\(\)/ => wrapped_addr
-//@sub /taproot_addr\.script_pubkey\(\)/ => taproot_addr
+//@sub /Address::p2wpkh\(&pubkey, ([\w.]+(?:\(\))?)\)/ => vx_p2wpkh(&pubkey, \1)
+//@sub /Address::p2shwpkh\(&pubkey, ([\w.]+(?:\(\))?)\)/ => vx_p2shwpkh(&pubkey, \1)
+//@sub /let untweaked_pubkey = UntweakedPublicKey::from\(pubkey\.0\);/ => 
+//@sub /Address::p2tr\(&self\.secp_ctx, untweaked_pubkey, None, ([\w.]+(?:\(\))?)\)/ => vx_p2tr(&pubkey, \1)
+//@sub /(\w+_addr)\.script_pubkey\(\)/ => \1
 //@end
 
 //@fn vls-core/src/node.rs :: impl Wallet for Node :: allowlist_contains props=C08,C07,C09
